@@ -288,13 +288,19 @@ def shrink(ctx, exe, lines, bad, cap=60):
         b2 = attempt(cand)
         if b2:
             cur, curbad = cand[:b2[0] + 1], b2
-    while i < len(cur) and runs < cap:
-        cand = cur[:i] + cur[i + 1:]
-        b2 = attempt(cand) if valid_prog(cand) else None
+    chunk = max(1, (len(cur) - 1) // 2)     # chunks first (a failure may depend on the parity / bits of nelts), then single lines
+    while runs < cap:
+        if i >= len(cur):
+            if chunk == 1:
+                break
+            chunk, i = chunk // 2, 1
+            continue
+        cand = cur[:i] + cur[i + chunk:]
+        b2 = attempt(cand) if len(cand) > 1 and valid_prog(cand) else None
         if b2:
             cur, curbad = cand[:b2[0] + 1], b2
         else:
-            i += 1
+            i += chunk if chunk > 1 else 1
     used = max([int(l.split()[1]) for l in cur[1:] if l.split()[0] in ("ins", "rem")] or [0])
     if used and used < int(cur[0].split()[1]):
         cand = [f"reset {used}"] + cur[1:]
